@@ -85,7 +85,8 @@ IsQuot(F, a, b, q) == IF b = Zero(F) THEN q = Zero(F) ELSE Mul(F, q, b) = a
 Inv(F, a) == IF a = Zero(F) THEN Zero(F)
              ELSE CHOOSE b \in Elem(F) : Mul(F, a, b) = One(F)
 \* computed inverse in the prime field by Fermat (any p < 46341)
-InvP(p, a) == PowBits([p |-> p, d |-> 1, mc |-> <<0>>], <<a % p>>, Bits(p - 2))[1]
+InvP(p, a) == IF a % p = 0 THEN 0   \* inv0 (also keeps p = 2 right, where p - 2 = 0)
+              ELSE PowBits([p |-> p, d |-> 1, mc |-> <<0>>], <<a % p>>, Bits(p - 2))[1]
 \* inverse in an extension through the norm-free route: a^(q-2) needs q = p^d,
 \* which overflows for big fields; use IsInv with a witness there.
 
